@@ -48,8 +48,8 @@ type PortBlock struct {
 	PublicIP      uint32
 	PortStart     uint16
 	PortEnd       uint16
-	NextPort      uint16
-	PortsInUse    uint16
+	NextPort      uint32 // __u32 in struct port_block (atomic ops in the eBPF program)
+	PortsInUse    uint32 // __u32 in struct port_block
 	AllocatedAt   uint64
 	SubscriberID  uint32
 	BlockSizeLog2 uint8
@@ -491,7 +491,7 @@ func (m *Manager) AllocateNAT(privateIP net.IP) (*Allocation, error) {
 				PublicIP:      ipToKey(selectedPool.PublicIP),
 				PortStart:     portStart,
 				PortEnd:       portEnd,
-				NextPort:      portStart,
+				NextPort:      uint32(portStart),
 				PortsInUse:    0,
 				AllocatedAt:   uint64(time.Now().UnixNano()),
 				SubscriberID:  subscriberID,
